@@ -12,12 +12,15 @@ MANIFEST = {
             "with C04, incl. the pipeline oracle evaluated on the implementation alone), and a trace monitor over real "
             "threaded runs with seeded perturbation: every supernode read in panel_bmod happens after the release of all "
             "its columns, each (panel, source supernode) update at most once, only smaller columns are read; plus "
-            "comparison of the parallel factors with a 1-thread elimination using the same row order.",
+            "comparison of the parallel factors with a 1-thread elimination using the same row order; a hook-placement audit of the "
+            "current source (every spin_locks[] store has its RELEASE event next to it and follows pivotL / factor_snode; DONE "
+            "likewise) ties the events the monitor reads to the stores the workers see, and a pivot-reuse stream (usepr = YES, "
+            "several workers) exercises the release site under the option where the pivot step decides nothing.",
     "note": "The scheduler (C04 note) and pxgstrf_mark_busy_descends are RE-TRANSLATED from the current source on every run and proved equal to the models (SchedTie.v; BusyGen.v / BusyTie.v: c03_source_mark_busy_is_model, c03_source_busy_columns_marked). PARTIAL: of the column-level worker protocol, pxgstrf_mark_busy_descends is modelled and proved (c03_busy_columns_marked: "
             "the busy snapshot covers every column of every unfinished descendant panel; tied by comparing every snapshot of every "
             "worker of real runs with the extracted model); panel_dfs skipping, pruning races and no-write-while-read on subscript "
             "lists are monitored on traces, not proved. Trusted: Coq kernel, extraction, lock-step harness, event hooks "
-            "(SLU_MT_VERIF) and the python trace monitor; sequentially consistent memory assumed.",
+            "(SLU_MT_VERIF; their placement at the spin_locks/DONE stores is audited textually on every run, not proved) and the python trace monitor; sequentially consistent memory assumed.",
     "technique": "Coq invariant proof (panel-level pipeline protocol; scheduler and busy snapshot proved equal to translations of the C source regenerated on every run) + lock-step model-vs-C walk + trace monitor on threaded runs",
 }
 
@@ -97,6 +100,81 @@ def busy_tie(bdrv, c, r):
     return None, None, len(want)
 
 
+def hook_audit(ctx):
+    """The trace monitor sees a column become readable where the RELEASE event is logged; the workers see it where spin_locks[]
+    is cleared.  This audit of the CURRENT source ties the two: every store to spin_locks[] in SRC/*.c is either the scheduler's
+    '= 1' (pxgstrf_scheduler.c) or a '= 0' in p?gstrf_thread.c that (a) has the RELEASE event within the 3 code lines before it and
+    (b) is reached, walking back, through the call that makes the column final (p?gstrf_pivotL / p?gstrf_factor_snode) before any
+    other spin_locks store or the scheduler call; every RELEASE event is followed by such a store; DONE likewise.  Returns the
+    list of discrepancies (empty on a tree whose hooks sit at the stores)."""
+    import glob, os, re
+    bad, nst, nev = [], 0, 0
+    store = re.compile(r"spin_locks\s*\[[^\]]*\]\s*(=(?!=)|\+\+|--|[-+|&^*/]=)\s*([^;]*)")
+    for f in sorted(glob.glob(os.path.join(vf.REPO, "SRC", "*.c"))):
+        base = os.path.basename(f)
+        txt = open(f, errors="replace").read()
+        if "spin_locks" not in txt and "SLU_VEV_RELEASE" not in txt and "SLU_VEV_DONE" not in txt:
+            continue
+        txt = re.sub(r"/\*.*?\*/", lambda m: "\n" * m.group(0).count("\n"), txt, flags=re.S)
+        code = [(i + 1, l) for i, l in enumerate(txt.split("\n")) if l.strip() and not l.lstrip().startswith("#")]
+        is_thread = re.fullmatch(r"p[sdcz]gstrf_thread\.c", base) is not None
+        for k, (ln, l) in enumerate(code):
+            m = store.search(l)
+            if m:
+                nst += 1
+                val = m.group(2).strip()
+                if base == "pxgstrf_scheduler.c":
+                    if not (m.group(1) == "=" and val == "1"):
+                        bad.append("%s:%d spin_locks store other than '= 1' in the scheduler" % (base, ln))
+                elif is_thread:
+                    if not (m.group(1) == "=" and val == "0"):
+                        bad.append("%s:%d spin_locks store other than '= 0' in the thread loop" % (base, ln))
+                    if not any("SLU_VEV_RELEASE" in x for _, x in code[max(0, k - 3):k]):
+                        bad.append("%s:%d spin_locks[] cleared with no RELEASE event just before it (the event log does not show this release)" % (base, ln))
+                    final = False
+                    for _, x in reversed(code[:k]):
+                        if re.search(r"gstrf_pivotL\s*\(|gstrf_factor_snode\s*\(", x):
+                            final = True; break
+                        if store.search(x) and "for" not in x or re.search(r"pxgstrf_scheduler\s*\(", x):
+                            break
+                    if not final:
+                        bad.append("%s:%d spin_locks[] cleared before the call that makes the column final (pivotL / factor_snode)" % (base, ln))
+                else:
+                    bad.append("%s:%d spin_locks store outside the scheduler and the thread loop" % (base, ln))
+            if "SLU_VERIF_EV" in l and "SLU_VEV_RELEASE" in l:
+                nev += 1
+                if not any(store.search(x) for _, x in code[k + 1:k + 4]):
+                    bad.append("%s:%d RELEASE event with no spin_locks store just after it" % (base, ln))
+            if is_thread and re.search(r"STATE\s*\([^)]*\)\s*=\s*DONE|\.state\s*=\s*DONE", l):
+                if not any("SLU_VEV_DONE" in x for _, x in code[max(0, k - 2):k]):
+                    bad.append("%s:%d DONE stored with no DONE event just before it" % (base, ln))
+    if nst < 9 or nev < 8:
+        bad.append("expected the scheduler store and two release sites with events in each of the four thread loops; found %d stores, %d events" % (nst, nev))
+    ctx.cov["correspondence"]["hook_audit"] = {"spin_locks_stores": nst, "release_events": nev, "discrepancies": len(bad)}
+    return bad
+
+
+def usepr_cases(ctx, cid0, N):
+    """pivot rows handed back by the caller (usepr = YES, identity on a diagonally dominant band), several workers, narrow panels:
+    the option under which the pivot step decides nothing -- and must still be finished before the column is released"""
+    rng, out = ctx.rng, []
+    for k in range(N):
+        n = rng.randint(40, 90 if ctx.quick() else 240); b = rng.randint(4, 12)
+        ent = {}
+        for j in range(n):
+            for i in range(max(0, j - b), min(n, j + b + 1)):
+                if i != j:
+                    ent[(i, j)] = rng.uniform(0.2, 1.0) * rng.choice([1, -1])
+            ent[(j, j)] = (2.5 * b + rng.random()) * rng.choice([1, -1])
+        A = gen.from_entries(n, ent, "usepr-band")
+        out.append(dict(id=cid0 + k + 1, driver="gstrf", m=n, n=n, colptr=A["colptr"], rowind=A["rowind"], vals=A["vals"],
+                        nrhs=1, rhs=[1.0] * n, nprocs=rng.choice([2, 3, 4]), colperm=0, usepr=1, permr=list(range(n)),
+                        ienv=[rng.choice([1, 2]), 1, rng.choice([4, 200]), 200, 100, -50, -50, -30], thresh=1.0,
+                        perturb=[rng.randint(1, 10 ** 6), rng.choice([0.0, 0.3]), rng.choice([0, 30])],
+                        trace=5, dumplu=1, timeout=90, kind="usepr-band"))
+    return out
+
+
 def cases(ctx):
     rng = ctx.rng
     out, cid = [], 0
@@ -171,6 +249,7 @@ def cases(ctx):
                         nrhs=1, rhs=[1.0] * A["n"], nprocs=2, colperm=0,
                         ienv=[rng.choice([1, 2, 3]), rng.choice([1, 1, 2]), 200, 200, 100, -50, -50, -30], thresh=1.0,
                         perturb=None, stall=[k % 2, 2, 1300000], trace=5, dumplu=1, timeout=90, kind="stall"))
+    out += usepr_cases(ctx, cid, 8 if ctx.quick() else 60)
     return out
 
 
@@ -225,9 +304,17 @@ def run(ctx):
         v = c04.search_impl(ctx, exe_s, meta)
         if v:
             ctx.violation("C03 oracle on the real scheduler: " + v["what"], v, key={"kind": "sched_protocol", "what": v["what"][:60]})
+    # hook placement audit on the current source (ties the RELEASE/DONE events of the monitor to the stores the workers see)
+    audit = hook_audit(ctx)
+    ctx.log("hook audit:", ctx.cov["correspondence"]["hook_audit"])
+    for a in audit:
+        ctx.broken.append("correspondence hook audit: " + a)
     # threaded traces
     exe = drv.build(ctx, "d", "hooks")
     cs = cases(ctx)
+    if audit:
+        # search for a failing input where the audit points: more pivot-reuse runs (the release sites differ by option)
+        cs += usepr_cases(ctx, len(cs) + 1000, 40)
     res = drv.run_grouped(exe, cs, par=max(1, vf.NCPU // 4), chunk=10)
     ntr, nbusy, nseq, nsnap, nretry = 0, 0, 0, 0, 0
     bdrv = ctx.ocaml_model("busy")
@@ -253,7 +340,7 @@ def run(ctx):
                 nsnap += k
                 if brk:
                     ctx.broken.append(brk)
-            if bad is None and ntr % 3 == 0:
+            if bad is None and (ntr % 3 == 0 or c["kind"] == "usepr-band"):
                 nseq += 1
                 bad = compare_seq(ctx, exe, c, r)
         ctx.count(("tr", c["kind"], c["n"], tuple(c["rowind"][:40]), c["nprocs"], (c["perturb"] or c.get("stall") or [0])[0]), nontrivial=nontriv,
